@@ -23,22 +23,24 @@ i.e. for every prerequisite graph and every segment-reference graph, cyclic or n
 theorem terminates (env : Env) (f : Flag) : (evaluate env f).outcome = .done :=
   evaluate_total env f
 
-/-- The segment fuel suffices: with a duplicate-free chain of store keys and
-`#distinct segment keys + 1 ≤ fuel + |chain|`, `segContains` never runs out of fuel. -/
+/-- The segment fuel suffices: with a duplicate-free chain of OWN keys of stored segments and
+`#distinct own segment keys + 1 ≤ fuel + |chain|`, `segContains` never runs out of fuel.  (The keys
+under which the data provider hands the segments out play no role.) -/
 theorem segments_fuel_suffices (env : Env) :
     ∀ n (s : Segment) (chain : List String) (st : St), chain.Nodup →
-      (∀ k ∈ chain, k ∈ env.store.segments.map (·.key)) →
-      s.key ∈ env.store.segments.map (·.key) →
-      distinctCount (env.store.segments.map (·.key)) + 1 ≤ n + chain.length →
+      (∀ k ∈ chain, k ∈ env.store.segments.map (·.2.key)) →
+      s.key ∈ env.store.segments.map (·.2.key) →
+      distinctCount (env.store.segments.map (·.2.key)) + 1 ≤ n + chain.length →
       (segContains n env s chain st).1 ≠ .oof :=
   segContains_no_oof env
 
 /-- The flag fuel suffices (`root` is the key of the flag handed to `evaluate`, which need not be
-in the store). -/
+in the store; the other keys are OWN keys of stored flags, whatever lookup keys they are filed
+under). -/
 theorem flags_fuel_suffices (env : Env) (root : String) :
     ∀ n (f : Flag) (chain : List String) (st : St), chain.Nodup → f.key ∉ chain →
-      (∀ k ∈ chain ++ [f.key], k = root ∨ k ∈ env.store.flags.map (·.key)) →
-      distinctCount (env.store.flags.map (·.key)) + 2 ≤ n + chain.length →
+      (∀ k ∈ chain ++ [f.key], k = root ∨ k ∈ env.store.flags.map (·.2.key)) →
+      distinctCount (env.store.flags.map (·.2.key)) + 2 ≤ n + chain.length →
       (evalFlag (segFuel env.store) n env f chain st).1 ≠ .oof :=
   evalFlag_no_oof env root
 
@@ -302,18 +304,31 @@ theorem segment_not_on_path_no_cycle_error {rec : SegRec} {env : Env} {s : Segme
   cases this
 
 /-- In a whole evaluation, every recorded event belongs to a COMPLETED evaluation of a store flag:
-its detail is what that flag evaluates to on its own with `ok = true`.  Hence nothing is ever
-recorded for an evaluation that was cut short by a cycle (or by any other abort). -/
+the event names (by its OWN key) a flag `pf` that the store returns for some lookup key `k` — the
+key a dependent flag lists; the data provider need not file `pf` under its own key — and its detail
+is what that flag evaluates to on its own with `ok = true`.  Hence nothing is ever recorded for an
+evaluation that was cut short by a cycle (or by any other abort). -/
 theorem events_only_for_completed (env : Env) (top : Flag) :
+    ∀ e ∈ (evaluate env top).events, ∃ k pf,
+      env.store.findFlag k = some pf ∧ e.prereqKey = pf.key ∧
+      Spec.evalFlag (segFuel env.store) (flagFuel env.store) env pf [] =
+        some (e.result.detail, true) := by
+  intro e he
+  obtain ⟨f, pf, p, d, _, _, hfind, rfl, hs⟩ := evaluate_events_ok env top e he
+  exact ⟨p.key, pf, hfind, rfl, hs⟩
+
+/-- The same for a store that files every flag under its own key: the event's key IS the lookup
+key. -/
+theorem events_only_for_completed_consistent (env : Env) (top : Flag)
+    (hst : StoreConsistent env.store) :
     ∀ e ∈ (evaluate env top).events, ∃ pf,
       env.store.findFlag e.prereqKey = some pf ∧
       Spec.evalFlag (segFuel env.store) (flagFuel env.store) env pf [] =
         some (e.result.detail, true) := by
   intro e he
-  obtain ⟨f, pf, p, d, _, _, hfind, rfl, hs⟩ := evaluate_events_ok env top e he
+  obtain ⟨k, pf, hfind, hk, hs⟩ := events_only_for_completed env top e he
   refine ⟨pf, ?_, hs⟩
-  show env.store.findFlag pf.key = some pf
-  rw [(findFlag_key hfind).1]; exact hfind
+  rw [hk, findFlag_key_consistent hst hfind]; exact hfind
 
 /-! ## 6. Diamonds -/
 
@@ -348,7 +363,7 @@ def a := mkFlag "a" [⟨"c", 0⟩]
 def b := mkFlag "b" [⟨"c", 0⟩]
 def top := mkFlag "top" [⟨"a", 0⟩, ⟨"b", 0⟩]
 def env : Env :=
-  { opts := {}, store := { flags := [a, b, c] }, bs := none, ctx := ctx, rx := fun _ _ => none }
+  { opts := {}, store := Store.ofLists [a, b, c] [], bs := none, ctx := ctx, rx := fun _ _ => none }
 
 /-- The Spec evaluates the diamond to variation 0, FALLTHROUGH, not aborted. -/
 theorem diamond_ok :
@@ -370,7 +385,7 @@ def deepKeys : List String := ["d00", "d01", "d02", "d03", "d04", "d05", "d06", 
 def deepFlags : List Flag :=
   List.zipWith (fun k nxt => mkFlag k [⟨nxt, 0⟩]) deepKeys (deepKeys.drop 1) ++ [mkFlag "d24" []]
 def deepEnv : Env :=
-  { opts := {}, store := { flags := deepFlags }, bs := none, ctx := ctx, rx := fun _ _ => none }
+  { opts := {}, store := Store.ofLists deepFlags [], bs := none, ctx := ctx, rx := fun _ _ => none }
 def deepTop : Flag := mkFlag "top" [⟨"d00", 0⟩, ⟨"d10", 0⟩]
 
 theorem deep_diamond_ok :
@@ -385,7 +400,7 @@ def y := mkFlag "y" [⟨"x", 0⟩]
 def selfish := mkFlag "selfish" [⟨"selfish", 0⟩]
 def mixed := mkFlag "mixed" [⟨"c", 0⟩, ⟨"x", 0⟩, ⟨"a", 0⟩]
 def cycEnv : Env :=
-  { opts := { logger := true }, store := { flags := [a, c, x, y, selfish] }, bs := none, ctx := ctx,
+  { opts := { logger := true }, store := Store.ofLists [a, c, x, y, selfish] [], bs := none, ctx := ctx,
     rx := fun _ _ => none }
 
 theorem cycle_is_malformed :
@@ -417,11 +432,11 @@ def segFlag : Flag :=
     fallthrough := { variation := some 0 }, variations := [.bool false, .bool true] }
 def diamondSegEnv : Env :=
   { opts := {},
-    store := { segments := [mkSeg "s1" ["s2", "s3"], mkSeg "s2" ["s4"], mkSeg "s3" ["s4"],
-                            mkSeg "s4" []] },
+    store := Store.ofLists [] [mkSeg "s1" ["s2", "s3"], mkSeg "s2" ["s4"], mkSeg "s3" ["s4"],
+                               mkSeg "s4" []],
     bs := none, ctx := ctx, rx := fun _ _ => none }
 def cycleSegEnv : Env :=
-  { opts := { logger := true }, store := { segments := [mkSeg "s1" ["s2"], mkSeg "s2" ["s1"]] },
+  { opts := { logger := true }, store := Store.ofLists [] [mkSeg "s1" ["s2"], mkSeg "s2" ["s1"]],
     bs := none, ctx := ctx, rx := fun _ _ => none }
 
 /-- `s4` is reached on both paths and evaluated on each; no error. -/
@@ -438,6 +453,31 @@ theorem segment_cycle_is_malformed :
     (evaluate cycleSegEnv segFlag).logs =
       [⟨"sf", .malformedSegment "s1" (.malformedSegment "s2" (.circularSegment "s1"))⟩] := by
   decide
+
+/-! An INCONSISTENT data provider: asked for `"gate"` it returns a flag whose own key is
+`"gate-v2"`, and that flag lists `"gate"` as a prerequisite.  The path is built from OWN keys
+(`feature`, `gate-v2`), so the second lookup of `"gate"` returns a flag that is already on the path:
+the evaluation ends there with MALFORMED_FLAG instead of descending for ever. -/
+def gateV2 : Flag := mkFlag "gate-v2" [⟨"gate", 0⟩]
+def feature : Flag := mkFlag "feature" [⟨"gate", 0⟩]
+def aliasEnv : Env :=
+  { opts := { logger := true }, store := { flags := [("gate", gateV2)] }, bs := none, ctx := ctx,
+    rx := fun _ _ => none }
+
+example : ¬ StoreConsistent aliasEnv.store := by
+  intro h
+  have := h.1 ("gate", gateV2) (by simp [aliasEnv])
+  revert this
+  decide
+
+example :
+    (evaluate aliasEnv feature).outcome = .done ∧
+    (evaluate aliasEnv feature).result.detail.reason.kind = .error ∧
+    (evaluate aliasEnv feature).result.detail.reason.errorKind = some .malformedFlag ∧
+    (evaluate aliasEnv feature).result.detail.index = none ∧
+    (evaluate aliasEnv feature).flagLookups = ["gate", "gate"] ∧
+    (evaluate aliasEnv feature).events.length = 0 ∧
+    (evaluate aliasEnv feature).logs = [⟨"gate-v2", .circularPrereq "gate-v2"⟩] := by decide
 
 end Ex
 
